@@ -37,6 +37,10 @@ func (v *LogScopeVariables) Get(s context.Scope, name string) (value.Value, erro
 
 	switch name {
 	case BEREQ_BODY_BYTES_WRITTEN:
+		// Backend request is not created when the object is delivered from the cache
+		if bereq == nil {
+			return &value.Integer{Value: 0}, nil
+		}
 		var buf bytes.Buffer
 		if _, err := buf.ReadFrom(bereq.Body); err != nil {
 			return value.Null, errors.WithStack(err)
@@ -51,6 +55,9 @@ func (v *LogScopeVariables) Get(s context.Scope, name string) (value.Value, erro
 		return &value.Integer{Value: 0}, nil
 
 	case BEREQ_HEADER_BYTES_WRITTEN:
+		if bereq == nil {
+			return &value.Integer{Value: 0}, nil
+		}
 		var headerBytes int64
 		// FIXME: Do we need to include total byte header LF bytes?
 		for k, v := range bereq.Header {
@@ -400,6 +407,10 @@ func (v *LogScopeVariables) getFromRegex(name string) (value.Value, error) {
 		return getResponseHeaderValue(v.ctx.Response, match[1]), nil
 	}
 	if match := backendRequestHttpHeaderRegex.FindStringSubmatch(name); match != nil {
+		// Backend request is not created when the object is delivered from the cache
+		if v.ctx.BackendRequest == nil {
+			return &value.String{IsNotSet: true}, nil
+		}
 		return getRequestHeaderValue(v.ctx.BackendRequest, match[1]), nil
 	}
 	return v.base.getFromRegex(name)
